@@ -461,6 +461,9 @@ Spans of submodels differ:
             **kwargs,
         )
 
+        # Initialise the counter in case of no iterations (`max_iter=0`)
+        iteration = 0
+
         for iteration in range(1, max_iter + 1):
             previous_values = copy.deepcopy(current_values)
 
